@@ -244,3 +244,28 @@ Proof.
   rewrite EM in MT. subst st. exists fin. split; [exact C|]. destruct Out as [(E & _)|(_ & Hh & _)]; [discriminate E|exact Hh].
 Qed.
 Print Assumptions C09_source_va_read_negative_rows.
+
+(* the statuses of the table-slice framing from the source (sbdf_ts_read, read of all columns), for EVERY byte stream without
+   bit arrays, every table metadata struct and EVERY allocation schedule: a missing or broken section marker is reported with
+   the status of the model's sec_read, the table-end marker as SBDF_TABLEEND, any other section as UNEXPECTED_SECTION_ID, a
+   missing column count as IO, a negative one as INVALID_SIZE, one that differs from the table metadata's as
+   COLUMN_COUNT_MISMATCH - each before anything is allocated (ts_frame_status spells the cases out). *)
+From Sbdf Require Import ImpFactsTsRead.
+Theorem C09_source_ts_read_framing_statuses : forall rf rp fo po k sx m (h : ImpFactsCells.heap) tmb n, Forall byte sx -> 0 <= n <= 715827882 -> cell_get h tmb 1 = Some (VInt n) ->
+  (forall s1 s2, sec_read sx = Ok (3, s1) -> read_int32 false s1 = Ok (n, s2) -> cols_nobit (Z.to_nat n) s2) ->
+  exists f0, forall f, (f0 <= f)%nat -> exists st fin,
+    callC prog_env f prog_sbdf_ts_read [VPtr rf fo; VCell tmb 0; VNull; VPtr rp po] m k sx h = OReturn (VInt st) fin /\
+    match sec_read sx with
+    | Err e => st = e
+    | Ok (x, s1) =>
+      if x =? 5 then st = SBDF_TABLEEND else if negb (x =? 3) then st = SBDF_ERROR_UNEXPECTED_SECTION_ID else
+      match read_int32 false s1 with
+      | Err e => st = e
+      | Ok (cnt, _) => if cnt <? 0 then st = SBDF_ERROR_INVALID_SIZE else if negb (cnt =? n) then st = SBDF_ERROR_COLUMN_COUNT_MISMATCH else True
+      end
+    end.
+Proof.
+  intros rf rp fo po k sx m h tmb n Hs Hn Htm NBC. destruct (ts_read_source rf rp fo po k sx m h tmb n Hs Hn Htm NBC) as (f0 & F). exists f0. intros f Hf.
+  destruct (F f Hf) as (st & fin & C & _ & FS & _). exists st, fin. split; [exact C|exact FS].
+Qed.
+Print Assumptions C09_source_ts_read_framing_statuses.
